@@ -145,7 +145,67 @@ func idKinds() []idKind {
 				return strings.TrimSuffix(strings.TrimPrefix(types.SpendPolicy{Type: types.PolicyTypeOpaque(a)}.String(), "opaque("), ")")
 			}})
 	}
-	return ks
+	return append(ks, jsonFieldKinds()...)
+}
+
+// jsonFieldKind covers a fixed-size hex string that only exists as a field of a JSON object
+// (storage proof leaves, policy preimages): tmpl is a valid object, set replaces the field.
+func jsonFieldKind(name string, size int, tmpl any, field string, inList bool, get func(raw []byte) ([]byte, error)) idKind {
+	build := func(s string) []byte {
+		b, err := json.Marshal(tmpl)
+		if err != nil {
+			panic(err)
+		}
+		var m map[string]json.RawMessage
+		if err := json.Unmarshal(b, &m); err != nil {
+			panic(err)
+		}
+		q := quoteJSON(s)
+		if inList {
+			q = append(append([]byte{'['}, q...), ']')
+		}
+		m[field] = q
+		out, err := json.Marshal(m)
+		if err != nil {
+			panic(err)
+		}
+		return out
+	}
+	return idKind{name: name, size: size,
+		parsers: []parser{{name: "json.Unmarshal", utf8: true, f: func(s string) ([]byte, error) { return get(build(s)) }}},
+		canonical: func(b []byte) string {
+			// the library prints the field as plain lower-case hex: check through a round trip of the object
+			got, err := get(build(hexOf(b)))
+			if err != nil || !bytes.Equal(got, b) {
+				return fmt.Sprintf("<%x, %v>", got, err)
+			}
+			return hexOf(b)
+		}}
+}
+
+func jsonFieldKinds() []idKind {
+	return []idKind{
+		jsonFieldKind("json:StorageProof.leaf", 64, types.StorageProof{}, "leaf", false, func(raw []byte) ([]byte, error) {
+			var sp types.StorageProof
+			err := json.Unmarshal(raw, &sp)
+			return sp.Leaf[:], err
+		}),
+		jsonFieldKind("json:V2StorageProof.leaf", 64, types.V2StorageProof{}, "leaf", false, func(raw []byte) ([]byte, error) {
+			var sp types.V2StorageProof
+			err := json.Unmarshal(raw, &sp)
+			return sp.Leaf[:], err
+		}),
+		jsonFieldKind("json:SatisfiedPolicy.preimage", 32, types.SatisfiedPolicy{Policy: types.AnyoneCanSpend()}, "preimages", true, func(raw []byte) ([]byte, error) {
+			var sp types.SatisfiedPolicy
+			if err := json.Unmarshal(raw, &sp); err != nil {
+				return nil, err
+			}
+			if len(sp.Preimages) != 1 {
+				return nil, fmt.Errorf("harness: %d preimages", len(sp.Preimages))
+			}
+			return sp.Preimages[0][:], nil
+		}),
+	}
 }
 
 func idKindByName(name string) *idKind {
